@@ -327,6 +327,26 @@ CLAIMED = {
        "un-broadcast prior means, HammingIMQ, batch-decoupled strategy, log priors summed over the batch in the approximate MLLs) are listed in "
        "known_findings.json; exact / multitask / variational models with matching batch shapes, model lists and SumMLL agree with their replicas.",
   technique="contract-based deductive verification: AST-extracted real functions, elementwise tensor domain with a symbolic batch index, modular callee contracts, z3"),
+ "C03": dict(
+  category="other",
+  text="Proof tier (counted): the per-operation step of the history-independence induction -- every public operation that changes what the "
+       "prediction caches depend on drops them, on the real functions: Module.train (train(True) always, eval() when coming from training mode; "
+       "eval() on an eval-mode model keeps the strategy), ExactGP.set_train_data (inputs / targets / both / neither, strict or not: strategy dropped, "
+       "exactly the given data installed), Module._load_from_state_dict for ExactGP (prediction_strategy), InducingPointKernel (_cached_kernel_mat, "
+       "_cached_kernel_inv_root), GridKernel (_cached_kernel_mat) and variational strategies (memoised prior / Cholesky factor) followed by the "
+       "delegation to torch with the same arguments, GridKernel.update_grid (new grid buffers installed, cached K_UU dropped in interpolation mode "
+       "too, full grid rebuilt otherwise), and the training-mode entry of _VariationalStrategy.__call__ (memoised values dropped before use; kept in "
+       "evaluation mode). Bounded tier (not counted): ALL histories of length <= 2-3 (quick) / 3-4 plus 200 sampled longer ones (thorough) over "
+       "{predict under two settings, train/eval switch, optimiser step, set_train_data (inputs / targets / both), load_state_dict, get_fantasy_model, "
+       "prior-mode call, backward through a non-detached prediction} for exact GPs (default, KISS-GP fixed and data-determined grid, SGPR) and "
+       "variational GPs (whitened, unwhitened): next prediction vs a freshly constructed model with the same state and vs a dense oracle.",
+  design_ref="DESIGN.md section 5, C03",
+  note="The induction over arbitrary histories is argued, not mechanised: the invariant 'every cache was computed from the current parameters, data "
+       "and grid' is preserved by predictions (frame) and re-established by the operations above; @cached decorators are dropped by the extraction, so "
+       "what a cache KEY depends on is covered by the enumerated histories only. Direct parameter edits in eval mode are excluded by the statement. "
+       "Known findings: second backward through a non-detached prediction, fantasies after a grad-enabled KISS-GP prediction, the data-determined "
+       "KISS-GP grid as unsynchronised history state.",
+  technique="contract-based deductive verification of the per-operation invalidation step (AST-extracted real functions, heap model with object identity, z3); exhaustive bounded enumeration of operation histories on the real code"),
 }
 REASON_NOT_BUILT = "contracts for this property are not built yet in this revision (see DESIGN.md section 9 build order); not claimed until its obligations are discharged by the checker"
 
